@@ -59,7 +59,6 @@ NodeOK(d, j) ==
   /\ \A x \in SeqSet(d[j].wers) : (Known(d, x) /\ (x \in NodeNames(d) => d[j].n \in SeqSet(Nd(d, x).wees)))
   /\ \A y \in SeqSet(d[j].wees) : (Known(d, y) /\ (y \in NodeNames(d) => d[j].n \in SeqSet(Nd(d, y).wers)))
   /\ ((d[j].par \in NodeNames(d) /\ d[j].par # "r") => d[j].n \in SeqSet(Nd(d, d[j].par).ch))
-  /\ (d[j].n # "u" => d[j].par \in NodeNames(d))
 
 \* ---------------------------------------------------------------- the checks, per event
 Checks(e) ==
@@ -72,7 +71,7 @@ Checks(e) ==
          /\ Check(Get(tc, <<e.n, e.i, e.w>>, 0) + 1 <= Get(pscount, e.w, 0), "C10", "more Terminated messages than terminations of the watched actor")
          /\ Check(e.n \notin Get(unwAtPs, e.w, {}), "C10", "Terminated delivered to a watcher whose UnWatch had returned before the termination")
     [] e.ev = "henter" ->
-         Check(~sysret, "C17", "a message handler was entered after ActorSystem.Stop returned")
+         Check(e.run = 0, "C17", "a message handler was entered after ActorSystem.Stop returned")
     [] e.ev = "ret" /\ e.ok = 1 /\ e.op \in SpawnOps ->
          /\ Check(e.i # 0, "C11", "Spawn returned a PID that no PreStart belongs to")
          /\ Check(e.i = 0 \/ <<e.n, e.i>> \in open[e.t].seen, "C11", "Spawn returned a PID that was not running at any time during the call")
@@ -86,9 +85,9 @@ Checks(e) ==
     [] e.ev = "gdeact" ->
          Check(Get(gst, e.n, "off") = "active", "C17", "a grain was deactivated twice (or without being active)")
     [] e.ev = "ghandle" ->
-         Check(~sysret, "C17", "a grain handled a message after ActorSystem.Stop returned")
+         Check(e.run = 0, "C17", "a grain handled a message after ActorSystem.Stop returned")
     [] e.ev = "ret" /\ e.ok = 1 /\ e.op \in {"tell", "tellg"} ->
-         Check(~sysret, "C17", "a send was accepted after ActorSystem.Stop returned")
+         Check(~open[e.t].late, "C17", "a send issued after ActorSystem.Stop had returned was accepted")
     [] e.ev = "End" /\ e.run = 1 ->
          LET live == {key \in Keys : ist[key].alive}  d == e.d
          IN
@@ -121,7 +120,8 @@ Step ==
      /\ open' = CASE e.ev = "New" -> <<>>
                   [] e.ev = "call" -> Upd(open, e.t, [op |-> e.op, n |-> e.n, w |-> e.w,
                                                        seen |-> IF e.op \in SpawnOps THEN AliveOf(e.n) ELSE {},
-                                                       dead |-> IF e.op = "actorof" THEN {k2 \in retStopped : k2[1] = e.n} ELSE {}])
+                                                       dead |-> IF e.op = "actorof" THEN {k2 \in retStopped : k2[1] = e.n} ELSE {},
+                                                       late |-> sysret])
                   [] e.ev = "prestart" -> [t \in DOMAIN open |-> IF open[t].op \in SpawnOps /\ open[t].n = e.n
                                                                    THEN [open[t] EXCEPT !.seen = @ \cup {key}] ELSE open[t]]
                   [] OTHER -> open
@@ -146,6 +146,7 @@ Step ==
                  [] OTHER -> unw
      /\ unwAtPs' = CASE e.ev = "New" -> <<>>
                      [] e.ev = "psenter" -> Upd(unwAtPs, e.n, {x[1] : x \in {y \in unw : y[2] = e.n}})
+                     [] e.ev = "call" /\ e.op = "watch" -> Upd(unwAtPs, e.n, Get(unwAtPs, e.n, {}) \ {e.w})   \* re-watched: it may see the snapshot
                      [] OTHER -> unwAtPs
      /\ owed' = CASE e.ev = "New" -> {}
                   [] e.ev = "psexit" -> owed \cup {<<a[1], a[2], e.n>> : a \in {b \in Keys : ist[b].alive /\ <<b[1], e.n>> \in watching}}
